@@ -438,7 +438,7 @@ def run_case(c):
         progs.append(["construct"])
     if rng.random() < 0.3:
         for sc in scns[:k]:
-            if sc["N"] is not None and sc["N"] <= 2:
+            if sc["N"] is not None and sc["N"] <= 2 and not sc.get("share_problem") and not sc.get("bench"):
                 sc["params_mode"] = "shared"
     solo = solo_refs(scns, progs)
     pool = [s for s, p in enumerate(progs) for _ in p]
